@@ -20,6 +20,34 @@ use fidget_core::{
 };
 use std::collections::VecDeque;
 
+/// Reports the start / end of one parallel octree task to the monitor hook
+#[cfg(feature = "verif-hooks")]
+struct VerifTask(usize, usize);
+
+#[cfg(feature = "verif-hooks")]
+impl VerifTask {
+    fn start(cell: &CellIndex<3>) -> Self {
+        use fidget_core::render::verif::{SchedPoint, fire};
+        let index = cell.index.map(|(i, j)| i * 8 + j as usize).unwrap_or(0);
+        fire(SchedPoint::OctreeTaskStart {
+            depth: cell.depth,
+            index,
+        });
+        VerifTask(cell.depth, index)
+    }
+}
+
+#[cfg(feature = "verif-hooks")]
+impl Drop for VerifTask {
+    fn drop(&mut self) {
+        use fidget_core::render::verif::{SchedPoint, fire};
+        fire(SchedPoint::OctreeTaskEnd {
+            depth: self.0,
+            index: self.1,
+        });
+    }
+}
+
 /// Octree storing occupancy and vertex positions for Manifold Dual Contouring
 #[derive(Debug)]
 pub struct Octree {
@@ -136,6 +164,8 @@ impl Octree {
                 .map_init(
                     || (OctreeBuilder::new(settings, vars), rh.clone()),
                     |(builder, eval), cell| {
+                        #[cfg(feature = "verif-hooks")]
+                        let _verif = VerifTask::start(cell);
                         let mut hermite = LeafHermiteData::default();
                         // Patch our cell so that it builds at index 0
                         let local_cell = CellIndex {
